@@ -403,6 +403,26 @@ pub fn run(ctx: &Ctx) -> i32 {
                 rep.add("stacked_negation_conditions", extra.len() as u64);
                 conds.extend(extra);
             }
+            if (2..=3).contains(&k) && off < 8 {
+                // the same identifier more than once in one condition: every operand sequence of
+                // length k+1 (k+2 for two names) over the k names that uses each name
+                let mut n_rep = 0u64;
+                for len in (k + 1)..=(if k == 2 { 4 } else { 4 }) {
+                    for code in 0..k.pow(len as u32) {
+                        let mut c = code;
+                        let seq: Vec<usize> = (0..len).map(|_| { let d = c % k; c /= k; d }).collect();
+                        // (the sequences are dealt out over eight work items; with different names each)
+                        if (0..k).any(|i| !seq.contains(&i)) || code % 8 != off {
+                            continue;
+                        }
+                        let ops: Vec<String> = seq.iter().map(|i| names[*i].clone()).collect();
+                        let w = written(&ops, true);
+                        n_rep += w.len() as u64;
+                        conds.extend(w);
+                    }
+                }
+                rep.add("repeated_operand_conditions", n_rep);
+            }
             rep.add("exhaustive_conditions", conds.len() as u64);
             for c in &conds {
                 if ctx.expired() {
@@ -465,7 +485,7 @@ pub fn run(ctx: &Ctx) -> i32 {
         ctx,
         rep,
         Meta {
-            rule: format!("complete enumeration of every way to write 1..{} operands with and/or, optional not before operands and groups (up to three operands also two or three nots in a row), and every parenthesisation, over keyword-prefixed identifier names, x all 3^k assignments of true/false/missing; plus redundant-parenthesis and extra-space variants; plus random conditions with 2..8 operands of every operand kind (identifier, all(), of(), int/flt/str cast comparisons). Oracles: the harness's own precedence-climbing parser evaluated with the C06 tables (meaning), and node-for-node comparison with the engine's parsed Expression tree (structure / associativity). non-trivial = tree changes under a swapped and/or table or a loose not; distinct by token-kind sequence", max_k),
+            rule: format!("complete enumeration of every way to write 1..{} operands with and/or, optional not before operands and groups (up to three operands also two or three nots in a row; two or three identifiers also with one of them written twice), and every parenthesisation, over keyword-prefixed identifier names, x all 3^k assignments of true/false/missing; plus redundant-parenthesis and extra-space variants; plus random conditions with 2..8 operands of every operand kind (identifier, all(), of(), int/flt/str cast comparisons). Oracles: the harness's own precedence-climbing parser evaluated with the C06 tables (meaning), and node-for-node comparison with the engine's parsed Expression tree (structure / associativity). non-trivial = tree changes under a swapped and/or table or a loose not; distinct by token-kind sequence", max_k),
             exhaustive: true,
             assumptions: vec!["keywords are written with their trailing delimiter as the tokeniser documents; extra spaces are U+0020".into()],
             min_nontrivial: 30,
